@@ -35,7 +35,7 @@ func (l *Lexer) NextToken() token.Token {
 	var tok token.Token
 
 	// l.skipWhitespace()
-	if l.ch == 0 {
+	if l.eof() {
 		tok.Literal = ""
 		tok.Type = token.EOF
 		tok.LineNumber = l.curLine
@@ -75,7 +75,7 @@ func (l *Lexer) nextInsideToken() token.Token {
 	// a '#' comment runs to the end of the line; the token after it is the
 	// next one (a loop: any number of comment lines may follow each other)
 	for l.ch == '#' {
-		for l.ch != 0 {
+		for !l.eof() {
 			l.readChar()
 			if l.ch == '\n' || l.ch == '\r' {
 				break
@@ -214,11 +214,11 @@ func (l *Lexer) nextInsideToken() token.Token {
 		tok = l.newToken(token.LBRACKET)
 	case ']':
 		tok = l.newToken(token.RBRACKET)
-	case 0:
-		tok.Literal = ""
-		tok.Type = token.EOF
 	default:
-		if isLetter(l.ch) {
+		if l.eof() {
+			tok.Literal = ""
+			tok.Type = token.EOF
+		} else if isLetter(l.ch) {
 			tok.Literal = l.readIdentifier()
 			tok.Type = token.LookupIdent(tok.Literal)
 			tok.LineNumber = line
@@ -275,6 +275,12 @@ func (l *Lexer) readChar() {
 	l.readPosition++
 }
 
+// eof reports whether the input has been read to its end. A NUL byte in the
+// input is a byte like any other: the end is known by position only.
+func (l *Lexer) eof() bool {
+	return l.position >= len(l.input)
+}
+
 func (l *Lexer) peekChar() byte {
 	if l.readPosition >= len(l.input) {
 		return 0
@@ -307,7 +313,7 @@ func (l *Lexer) readNumber() string {
 
 func (l *Lexer) readString() string {
 	position := l.position + 1
-	for l.ch != 0 {
+	for !l.eof() {
 		l.readChar()
 		// check for quote escapes
 		for l.ch == '\\' && l.peekChar() == '"' {
@@ -324,7 +330,7 @@ func (l *Lexer) readString() string {
 
 func (l *Lexer) readBString() string {
 	position := l.position + 1
-	for l.ch != 0 {
+	for !l.eof() {
 		l.readChar()
 		if l.ch == '`' {
 			break
@@ -337,7 +343,7 @@ func (l *Lexer) readBString() string {
 func (l *Lexer) readHTML() string {
 	position := l.position
 
-	for l.ch != 0 {
+	for !l.eof() {
 		if l.ch == '\\' {
 			// look at the whole run of backslashes and at what follows it
 			start := l.position
